@@ -21,12 +21,19 @@ type scenario struct {
 	N        int
 	Capacity int
 	Peek     bool // readers look at IsEmpty()/GetSize() before every RemoveHead (a polling reader)
+	// Mutate: the caller modifies the sequence of outputs that Fork/Split returned (after noting which queues
+	// it holds) - at once, or after the first value has come through. The sequence is the caller's: what the
+	// helper routes to must not depend on it (C18). "" | "RemoveAll" | "Reverse" | "RemoveAll-later" | "Reverse-later"
+	Mutate string
 }
 
 func (s scenario) String() string {
 	peek := ""
 	if s.Peek {
 		peek = " (readers poll IsEmpty/GetSize)"
+	}
+	if s.Mutate != "" {
+		peek += " (the caller applies " + s.Mutate + " to the returned sequence)"
 	}
 	return fmt.Sprintf("%s(n=%d) stream=%d capacity=%d%s", s.Fn, s.N, s.L, s.Capacity, peek)
 }
@@ -73,13 +80,35 @@ func (s scenario) program() rt.Program {
 		var joined col.QueueLike[int]
 		mainDone := false
 		helpersAliveAtWait := 0
+		var mutate func() // pending modification of the returned sequence (applied by the first reader after its first value)
 		var threads []rt.ThreadSpec
 		threads = append(threads, rt.ThreadSpec{Name: "main", Body: func() {
 			switch s.Fn {
-			case "Fork":
-				outputs = Q.Fork(&wg, input, uint(s.N)).AsArray()
-			case "Split":
-				outputs = Q.Split(&wg, input, uint(s.N)).AsArray()
+			case "Fork", "Split":
+				var outs col.Sequential[col.QueueLike[int]]
+				if s.Fn == "Fork" {
+					outs = Q.Fork(&wg, input, uint(s.N))
+				} else {
+					outs = Q.Split(&wg, input, uint(s.N))
+				}
+				outputs = outs.AsArray()
+				if s.Mutate != "" {
+					mutate = func() {
+						if l, ok := outs.(col.ListLike[col.QueueLike[int]]); ok {
+							if strings.HasPrefix(s.Mutate, "RemoveAll") {
+								l.RemoveAll()
+							} else {
+								l.ReverseValues()
+							}
+						} else if a, ok := outs.(col.ArrayLike[col.QueueLike[int]]); ok {
+							a.ReverseValues()
+						}
+					}
+					if !strings.HasSuffix(s.Mutate, "-later") {
+						mutate()
+						mutate = nil
+					}
+				}
 			case "SplitJoin":
 				outs := Q.Split(&wg, input, uint(s.N))
 				outputs = outs.AsArray()
@@ -118,6 +147,10 @@ func (s scenario) program() rt.Program {
 						break
 					}
 					got[j] = append(got[j], v)
+					if j == 0 && mutate != nil {
+						mutate()
+						mutate = nil
+					}
 				}
 				if v, ok := q.RemoveHead(); ok { // nothing may be delivered after closure
 					afterClose[j] = true
@@ -170,6 +203,29 @@ func (s scenario) program() rt.Program {
 		}
 		return threads, judge
 	}
+}
+
+// ReturnedSequenceUnits are the scenarios in which the caller modifies the
+// sequence that Fork or Split returned (registered under C18, which states that
+// a sequence returned by a class function shares no storage with the collection).
+func ReturnedSequenceUnits(tier string) []engine.Unit {
+	var us []engine.Unit
+	for _, fn := range []string{"Fork", "Split"} {
+		for _, m := range []string{"RemoveAll", "Reverse", "RemoveAll-later", "Reverse-later"} {
+			for _, l := range []int{1, 2} {
+				if strings.HasSuffix(m, "-later") && l < 2 {
+					continue
+				}
+				if l == 2 && fn == "Fork" && tier != "thorough" && !strings.HasSuffix(m, "-later") {
+					continue
+				}
+				s := scenario{Fn: fn, L: l, N: 2, Capacity: 1, Mutate: m}
+				s.Name = fmt.Sprintf("%s-returned-sequence-%s-L%d", fn, m, l)
+				us = append(us, engine.Unit{Name: s.Name, Run: func(r *engine.Rec) { explore(r, s) }})
+			}
+		}
+	}
+	return us
 }
 
 func explore(r *engine.Rec, s scenario) {
